@@ -52,7 +52,7 @@ _SELFTEST = [
 ]
 _kinds = {"mint", "transfer", "transfer_from", "approve", "forced_transfer", "burn", "recover", "freeze", "unfreeze",
           "set_frozen", "pause", "unpause", "set_id", "set_ct", "set_cc", "set_rec"}
-_c = dict(Acct=ABC, Amts={0, 1, 2}, NegAmt=False, Now0=10, DU=100, AllAuth=False, Kinds=_kinds, EmitMod=1)
+_c = dict(Acct=ABC, Amts={0, 1, 2}, NegAmt=False, Now0=10, DU=100, AllAuth=False, Kinds=_kinds, EmitMod=1, EmitLast=set())
 MODEL = dict(
     # unbounded amounts: Apalache discharges the conservation / freeze invariant as an inductive invariant (thorough tier)
     proofs=[dict(name="ApaRwa", cmd=["lib/apalache.sh", "ApaRwa"], tiers=("thorough",))],
@@ -81,6 +81,12 @@ MODEL = dict(
              constants=dict(_c, Acct={"a", "b"}, Amts={1, 2}, Depth=5, BUG_C04=False, Emit=True, EmitMod=10,
                             Kinds={"mint", "freeze", "set_frozen", "set_rec", "recover", "set_id"}),
              thorough=dict(Depth=7, EmitMod=40),
+             invariants=["NoViolation", "Refines", "ImplInv"]),
+        # both accounts partially frozen before the recovery (mint, mint, freeze, freeze, set_rec, recover): six calls
+        dict(name="recovery_both", module="MC_Rwa", replay_all=True,
+             constants=dict(_c, Acct={"a", "b"}, Amts={1, 2}, Depth=6, BUG_C04=False, Emit=True, EmitMod=1, EmitLast={"recover"},
+                            Kinds={"mint", "freeze", "set_rec", "recover"}),
+             thorough=dict(Depth=7, EmitMod=4),
              invariants=["NoViolation", "Refines", "ImplInv"]),
         # vacuity guards: on the model of the pinned code (transfer_from without validate_transfer) the gate
         # monitor fails within 3 calls, and frozen > balance is reached (mint, freeze, approve, transfer_from)
